@@ -208,13 +208,13 @@ async def wait_for_dependencies(
         # the input for our current step.
         futures.append(pre_sim.progress.has_passed(next_step, shift=delay))
 
+    # Waiting for successors only compares the main time: the sub-steps
+    # of a same-time loop must not wait for successors, as a successor
+    # may in turn (indirectly) wait for the loop's time step to end.
+    lazy_step = TieredTime(next_step.time, *([0] * (len(next_step) - 1)))
     for suc_sim, adapt in sim.successors_to_wait_for.items():
-        futures.append(suc_sim.progress.has_reached(next_step + adapt))
+        futures.append(suc_sim.progress.has_reached(lazy_step + adapt))
     if lazy_stepping:
-        # Lazy stepping only compares the main time: the sub-steps of a
-        # same-time loop must not wait for successors, as a successor
-        # may in turn (indirectly) wait for the loop's time step to end.
-        lazy_step = TieredTime(next_step.time, *([0] * (len(next_step) - 1)))
         for suc_sim, adapt in sim.successors.items():
             futures.append(suc_sim.progress.has_reached(lazy_step + adapt))
 
